@@ -135,7 +135,8 @@ pub fn repro_events<W: Write>(em: &mut Emitter<W>, thorough: bool, seed: u64) {
         }
     }
     // fast_gnp_random_graph with a seed
-    for &(n, pn, pd) in &[(5, 1, 2), (12, 1, 10), (30, 1, 2), (40, 9, 10), (64, 1, 100)] {
+    // the last two sizes are beyond any size threshold a generator is likely to switch strategy at
+    for &(n, pn, pd) in &[(5, 1, 2), (12, 1, 10), (30, 1, 2), (40, 9, 10), (64, 1, 100), (300, 1, 20), (1500, 1, 250)] {
         for directed in [true, false] {
             for sd in 0..(if thorough { 10 } else { 3 }) {
                 let p = pn as f64 / pd as f64;
@@ -151,7 +152,7 @@ pub fn repro_events<W: Write>(em: &mut Emitter<W>, thorough: bool, seed: u64) {
                     }
                 };
                 let mut all: Vec<Value> = (0..5).map(|_| gen()).collect();
-                for k in [2usize, 8] {
+                for k in [1usize, 2, 3, 8] {
                     all.push(rayon::ThreadPoolBuilder::new().num_threads(k).build().unwrap().install(gen));
                 }
                 for _ in 0..(if thorough { 5 } else { 2 }) {
@@ -193,6 +194,31 @@ pub fn repro_events<W: Write>(em: &mut Emitter<W>, thorough: bool, seed: u64) {
         }
         em.emit(json!({"parent": 0, "op": {"k": "repro_pure"}, "case": case_json(specs, &ops, "random"), "calls": 3,
             "distinct_total": distinct_of(&outs).len(), "differing_suites": differing}));
+    }
+    // non-randomised algorithms on graphs large enough for the data-parallel code paths (more than 20
+    // nodes), under rayon pools of 1, 2 and 8 threads and the global pool
+    for i in 0..(if thorough { 40 } else { 6 }) {
+        let specs = SpecsJ::kinds()[i % 8];
+        let n = rng.gen_range(21..=26);
+        let w: Vec<i64> = match i % 2 { 0 => vec![], _ => vec![1, 2, 3] };
+        let ops = crate::cases::random_graph(&mut rng, specs, n, 0.12, &w);
+        let g = build(specs, &ops);
+        let run = || -> Value {
+            json!({"paths": crate::algo::suite_paths(&g, 0), "centrality": crate::algo::suite_centrality(&g),
+                   "components": canon_components(crate::algo2::suite_components(&g, 1))})
+        };
+        let mut outs: Vec<Value> = vec![run()];
+        for k in [1usize, 2, 8] {
+            outs.push(rayon::ThreadPoolBuilder::new().num_threads(k).build().unwrap().install(run));
+        }
+        let mut differing: Vec<&str> = vec![];
+        for k in ["paths", "centrality", "components"] {
+            if outs.iter().any(|o| o[k] != outs[0][k]) {
+                differing.push(k);
+            }
+        }
+        em.emit(json!({"parent": 0, "op": {"k": "repro_pure"}, "case": case_json(specs, &ops, "random"), "calls": outs.len(),
+            "distinct_total": distinct_of(&outs).len(), "differing_suites": differing, "pools": [0, 1, 2, 8]}));
     }
     let _ = family;
 }
